@@ -5,8 +5,8 @@ CONSTANTS
   HexUsers = {1, 2}
   NSpell = 1
   MinerExecs = {1}
-  Amts = {1, 9, 10}
-  GenAmts = {5, 899}
+  Amts = {9, 10}
+  GenAmts = {5}
   OpLimit = 10
   BalLimit = 900
   IntMax = 922
